@@ -55,7 +55,11 @@ BrokenMicroRules(C, mic) ==
              C01_nonneg |-> ChipsNonNeg(mic.stacks, mic.bets, mic.pots),
              C01_payoff |-> PayoffIdentity(C, mic.stacks, mic.payoffs) ])
 
-\* rules about a step (pre-state, post-state); filled in per property
-BrokenStepRules(C, pre, post) == {}
-StepRulesOK(C, pre, post) == BrokenStepRules(C, pre, post) = {}
+\* rules about a step (pre-state, operation, arguments, post-state); filled in per property
+BrokenStepRules(C, pre, op, A, post) == {}
+
+RulesOf(p) ==
+  CASE p = "C01" -> {"C01_conserved", "C01_nonneg", "C01_payoff", "C01_terminal"}
+    [] p = "C06" -> {"C06_partition"}
+    [] OTHER -> {}
 =============================================================================
